@@ -27,7 +27,8 @@ RULE = ('span types x span length (4 quick / 6 thorough) x every ordered (start,
         'min_iter in {0, 3 = max_iter} x catch_first_error, each compared with the twin loop AND with the statuses the reference state machine prescribes; plus solve_period(label) vs solve_t(pos) for every label, ambiguous year label on a quarterly index, empty span. '
         'states = distinct final observations, transitions = solver calls executed, traces = cases compared with the twin loop; '
         'non-trivial = at least one period solved or a rejection checked'
-        ' The pairs also under an ambient warnings filter that turns warnings into errors (errors in skip/ignore/replace).')
+        ' The pairs also under an ambient warnings filter that turns warnings into errors (errors in skip/ignore/replace).'
+        ' Pairs with offsets 1,-1,2 and with a caller keyword for the hooks (call logs compared); a NaN replaced by the offset copy through all three entry points; tuple/frozenset absent labels on NumPy spans too.')
 ASSUMPTIONS = [
     'solve_t itself is judged by C02/C06; here it is the reference for solve()',
     'labels of pandas indexes are compared with ==',
@@ -107,6 +108,7 @@ def _run_pair_case(case):
     kind, n, si, ei, fpos, fault = case['span'], case['n'], case['si'], case['ei'], case['fpos'], case['fault']
     kw = dict(max_iter=3, min_iter=case['min_iter'], tol=scripted.TOL, errors=case['errors'], failures=case['failures'],
               catch_first_error=case.get('cfe', True))
+    kw.update(case.get('extra') or {})   # (an offset, a keyword of the caller's own for the hooks: passed to solve() and to every solve_t of the loop alike)
     a, labels = build(kind, n, fpos, fault)
     b, _ = build(kind, n, fpos, fault)
     init = observe(a)
@@ -155,7 +157,9 @@ def _run_pair_case(case):
     if oa != ob:
         out.append(('differential:state', 'equal to the solve_t loop', diff_obs(ob, oa), 'solve() leaves a different state than the loop of single-period solves'))
     # the statuses the policies prescribe, stated directly (reference state machine of the single-period solver, never the code's own solve_t)
-    if not out and all(1 <= p <= n - 2 for p in rng):
+    if not out and repr(a.sc_log()) != repr(b.sc_log()):   # (repr: a NaN in the log equals itself)
+        out.append(('differential:calls', b.sc_log()[:6], a.sc_log()[:6], 'solve() calls hooks and passes differently from the loop of single-period solves'))
+    if not out and all(1 <= p <= n - 2 for p in rng) and not case.get('extra'):
         fresh0, _ = build(kind, n, fpos, fault)
         opts = dict(minIter=case['min_iter'], maxIter=3, errors=case['errors'], failures=case['failures'], cfe=case.get('cfe', True), pre='finite', preHook='none', postHook='none')
         stopped = False
@@ -201,7 +205,7 @@ def _run_pair_case(case):
 def run_pairs(block, tier, acc):
     kind, n = block['span'], block['n']
     n = min(n, spans.MAX_LEN.get(kind, n))
-    choices = [None] + list(range(n)) + ['absent'] + ([] if kind.startswith('np_') or kind == 'list_mixed' else ['absent-tuple', 'absent-frozenset'])
+    choices = [None] + list(range(n)) + ['absent'] + ([] if kind == 'list_mixed' else ['absent-tuple', 'absent-frozenset'])
     seen = set()
     _, probe_labels = spans.make(kind, n)
     for si, ei in itertools.product(choices, choices):
@@ -228,6 +232,23 @@ def run_pairs(block, tier, acc):
             acc.nontrivial += 1 if (calls or str(si).startswith('absent') or str(ei).startswith('absent')) else 0
             for key, exp, obs, what in v:
                 acc.violation(key + ':stacked-mixins', case, exp, obs, what)
+        # the same pair with an offset (a period whose source lies outside the span stops the run there: the periods before it stay solved)
+        # and with a keyword of the caller's own that the hooks receive
+        for fpos, fault in fault_places[:2]:
+            for extra in ({'offset': 1}, {'offset': -1}, {'offset': 2}, {'marker': 'from the caller'}):
+                case = dict(kind='pairs', span=kind, n=n, si=si, ei=ei, fpos=fpos, fault=fault, errors='raise', failures='raise', min_iter=0, cfe=True, extra=extra)
+                acc.evaluations += 1
+                try:
+                    with guard(10):
+                        v, calls = run_pair_case(case)
+                except CaseTimeout:
+                    acc.violation('timeout', case, 'termination', 'timeout')
+                    continue
+                acc.traces += 1
+                acc.transitions += calls + 1
+                acc.nontrivial += 1 if (calls or str(si).startswith('absent') or str(ei).startswith('absent')) else 0
+                for key, exp, obs, what in v:
+                    acc.violation(key + ':' + sorted(extra)[0], case, exp, obs, what)
         # the same pair called from a process whose own warnings filter turns warnings into exceptions (the policies decide, not the caller's filter)
         for fpos, fault in fault_places:
             for errors in ('skip', 'ignore', 'replace'):
@@ -284,6 +305,8 @@ def run_period_case(case):
         out.append(('solve_period:return', rb, ra, 'solve_period(label) differs from solve_t(position)'))
     if observe(a) != observe(b):
         out.append(('solve_period:state', 'equal', diff_obs(observe(b), observe(a)), 'solve_period(label) leaves a different state than solve_t(position)'))
+    if repr(a.sc_log()) != repr(b.sc_log()):
+        out.append(('solve_period:calls', b.sc_log()[:6], a.sc_log()[:6], 'hooks and passes are not called as by solve_t(position) (keywords of the caller included)'))
     return out
 
 
@@ -293,7 +316,7 @@ def run_period(acc, tier):
         for pos in range(n):
             for fault in FAULTS:
                 for errors, extra in (('raise', None), ('skip', None), ('raise', {'catch_first_error': False}), ('raise', {'tol': 0.125}),
-                                      ('raise', {'min_iter': 3}), ('raise', {'max_iter': 1}), ('ignore', {'failures': 'raise'}), ('raise', {'offset': -1})):
+                                      ('raise', {'min_iter': 3}), ('raise', {'max_iter': 1}), ('ignore', {'failures': 'raise'}), ('raise', {'offset': -1}), ('raise', {'marker': 'from the caller'})):
                     case = dict(kind='period', span=kind, n=n, pos=pos, fault=fault, errors=errors, extra=extra)
                     acc.evaluations += 1
                     acc.nontrivial += 1
@@ -321,6 +344,21 @@ def run_misc_case(case):
             r = refsolve.call_outcome(m.solve)
             if r[0] != 'SolutionError':
                 out.append(('empty-span', 'SolutionError', r[0], 'solve() on an empty span must raise SolutionError'))
+    elif what == 'rerun-after-fault-with-offset':
+        # a period left with NaN by an earlier failed run is solved again with offset=-1: the copy from the period before replaces the
+        # NaN before anything is judged, so the run is served (solve() and the single-period solver alike), for every start
+        for entry in ('solve', 'solve_t', 'solve_period'):
+            for k in (1, 2):
+                m = scripted.make_scripted(list(range(4)), {p: list(NORMAL) for p in range(4)}, cls=scripted.Scripted)
+                m.A[k] = float('nan')
+                if entry == 'solve':
+                    r = refsolve.call_outcome(m.solve, start=k, tol=scripted.TOL, offset=-1)
+                elif entry == 'solve_t':
+                    r = refsolve.call_outcome(m.solve_t, k, tol=scripted.TOL, offset=-1)
+                else:
+                    r = refsolve.call_outcome(m.solve_period, k, tol=scripted.TOL, offset=-1)
+                if r[0] not in ('value', 'True') or str(m.status[k]) != '.' or not np.isfinite(m.A[k]):
+                    out.append(('rerun-after-fault-with-offset:%s' % entry, 'solved', [r[0], str(m.status[k])], 'a NaN that the offset copy replaces must not stop the run'))
     elif what == 'ambiguous-year':
         # a year on a quarterly PeriodIndex resolves to a slice, not a single position
         for arg in ('start', 'end', 'period', 'valid-start+end', 'start+valid-end', 'start+end'):
@@ -571,7 +609,7 @@ def run_block(block, tier, seed):
     elif block['kind'] == 'parser':
         run_parser(acc, tier, block)
     else:
-        for what in ('empty-span', 'ambiguous-year', 'min-gt-max', 'short-span', 'duplicate-label', 'defaults', 'repeated-label-inside', 'infeasible-explicit'):
+        for what in ('empty-span', 'ambiguous-year', 'min-gt-max', 'short-span', 'duplicate-label', 'defaults', 'repeated-label-inside', 'infeasible-explicit', 'rerun-after-fault-with-offset'):
             case = {'kind': 'misc', 'what': what}
             acc.evaluations += 1
             acc.nontrivial += 1
